@@ -84,3 +84,17 @@ def _f24(case, failure):
     IdentifierList (Parenthesis is not a list-item class: VALUES tuples rely on that).  The check tags the list failure
     only when the written list has such an item."""
     return failure.clause in ('list', 'function') and failure.sig.endswith(':paren_item_in_list')
+
+
+@classifier('f29_hash_comment_blank_stripped')
+def _f29(case, failure):
+    """F29: a '# ' comment with an empty body at the end of a statement: split() strips the piece, the '#' loses the
+    blank that made it a comment and re-splitting the piece yields an extra '#' statement."""
+    return (failure.clause, failure.sig) == ('resplit', 'hash-comment-lost-its-blank')
+
+
+@classifier('f30_lookbehind_context_lost')
+def _f30(case, failure):
+    """F30: a statement that directly follows a GO keyword without whitespace and starts with a token lexed by a
+    look-behind rule ([name], $tag$, :p, ?): as a piece of its own the left context is gone and it lexes differently."""
+    return (failure.clause, failure.sig) == ('resplit', 'lookbehind-at-piece-start')
